@@ -6,6 +6,9 @@ import os
 VERIF = os.path.dirname(os.path.dirname(os.path.abspath(__file__)))
 
 CHECKS = {
+    "C20": ("monitors on the real calibration functions with pre-screened problems and deep snapshots of the input model (independent COS repricing of the rebuilt model); Parameters objects driven through generated assignment histories and compared with directly constructed models; constraint probes",
+            "Held-on-observed: calibrated value inside the interval, reprices the target, same model type, input untouched (generic, ATM and default calibration for HEM, Merton, VG, CGMY); rebuilt = direct model on density, integrals, exponent, drifts, cumulants after 1..8 assignments; every constrained attribute rejects invalid values and keeps the old one.",
+            "Calibration problems inside the C18 box (COS accuracy).", "3/C20"),
     "C19": ("recorded per-state rates of real chains on CTMCCredit grids vs closed forms; harness-side Levy-copula mass of the default region from a different decomposition (inclusion-exclusion of half-spaces, corner sums on quadrature tail integrals); quadrature of the CDS payoff against the default-time law",
             "Held-on-observed: 1-d default rate = closed form of the truncated model = quadrature; n-d default rate = region mass in the box, closed form within the mass outside the box; theta = inclusion-exclusion, monotone; survival / spread relations; inverses; E[CDS payoff].",
             "Finite-variation margins; copula callable trusted (C11).", "3/C19"),
